@@ -1768,6 +1768,73 @@ func c22Execute(c *vcommon.Case, p *c22Params) (observed map[string]int) {
 
 const c22Batch = 3
 
+// c22TallyRaceCase (regression corpus): while a Byzantine voter's second, different precommit is being registered
+// as an equivocation, a concurrent reader of the tally (the finalisation engine polls attemptToFinalize every
+// interval/2) must never see that voter twice (once as a direct vote and once as an equivocator). n=4, the
+// node's own precommit + the Byzantine voter: the total for the block is 2 at every moment, never 3.
+func c22TallyRaceCase(c *vcommon.Case) {
+	tree := verifTreeFromParents([]int{-1, 0, 1, 2, 2}, 2223) // 0-1-2-{3,4}
+	keys := verifKeypairs(0x7a11, 4)
+	node, err := verifNewNode(tree, keys, verifNodeOpts{Self: 0})
+	if err != nil {
+		c.Inconclusive("set-up failed: " + err.Error())
+		return
+	}
+	defer node.Close()
+	svc := node.Service
+	const iterations = 400
+	maxSeen, reads := uint64(0), 0
+	for it := 0; it < iterations; it++ {
+		if err = svc.initiateRound(); err != nil {
+			c.Inconclusive("initiateRound: " + err.Error())
+			return
+		}
+		round := svc.state.round
+		own, _, err := svc.createSignedVoteAndVoteMessage(&Vote{Hash: tree.Hashes[2], Number: 2}, precommit)
+		if err != nil {
+			c.Inconclusive("own precommit: " + err.Error())
+			return
+		}
+		svc.precommits.Store(svc.publicKeyBytes(), own)
+		stop := make(chan struct{})
+		done := make(chan struct{})
+		go func() { // the reader: what attemptToFinalize looks at
+			defer close(done)
+			for {
+				select {
+				case <-stop:
+					return
+				default:
+				}
+				total, err := svc.getTotalVotesForBlock(tree.Hashes[2], precommit)
+				if err == nil {
+					reads++
+					if total > maxSeen {
+						maxSeen = total
+					}
+				}
+			}
+		}()
+		_, _ = svc.validateVoteMessage(c22Peer(3), verifVoteMessage(keys[3], precommit, tree.Vote(3), round, 0))
+		_, _ = svc.validateVoteMessage(c22Peer(3), verifVoteMessage(keys[3], precommit, tree.Vote(4), round, 0))
+		close(stop)
+		<-done
+		if maxSeen > 2 {
+			break
+		}
+	}
+	c.Eval(reads)
+	c.Count("tally_race_reads", reads)
+	c.Count("script:tally-race", 1)
+	if maxSeen > 2 {
+		c.Violation("finalised-without-supermajority", "the precommit tally counted one equivocating voter twice: "+
+			"own precommit + one Byzantine voter gave a total above 2 of 4 (an honest node finalises on it)",
+			map[string]any{"tree": tree.Shape(), "n": 4, "total_seen": maxSeen,
+				"steps": "own precommit block 2; Byzantine precommits block 3 then block 4 (validateVoteMessage) while " +
+					"another goroutine reads getTotalVotesForBlock(block 2, precommit)"})
+	}
+}
+
 // c22StopCase (regression corpus): what the voting round handler does when the finalisation engine has been
 // stopped, ie. has closed the action channel, in a round in which the node has already pre-voted and its best
 // block has changed since. An honest voter signs at most one pre-vote per round.
@@ -1833,6 +1900,8 @@ func TestVerifC22(t *testing.T) {
 	}
 	r.Floor("script:stop-closed-action-channel", 1)
 	r.Fixed("stop", 1, c22StopCase)
+	r.Floor("script:tally-race", 1)
+	r.Fixed("tally-race", 1, c22TallyRaceCase)
 	// a scenario whose forged message could not be placed (a node was not where the script needs it: timing) is
 	// run again, at most 3 times; every attempt is checked like any other execution
 	needs := map[string]string{"fork-commit-exact-two-thirds": "delivered:commit script-exact",
